@@ -58,7 +58,7 @@ pub struct Ctx {
     states: AtomicU64,
     transitions: AtomicU64,
     nontrivial: AtomicU64,
-    outcomes: Mutex<BTreeSet<u64>>,
+    outcomes: Vec<Mutex<BTreeSet<u64>>>,
     samples: Mutex<Vec<Value>>,
     sample_counter: AtomicU64,
     violations: Mutex<Vec<Violation>>,
@@ -66,7 +66,7 @@ pub struct Ctx {
     per_key: Mutex<BTreeMap<String, u64>>,
     extra: Mutex<Map<String, Value>>,
     assumptions: Mutex<Vec<String>>,
-    stats: Mutex<BTreeMap<String, u64>>,
+    stats: std::sync::RwLock<BTreeMap<String, AtomicU64>>,
     caps_hit: Mutex<Vec<String>>,
 }
 
@@ -74,6 +74,8 @@ const MAX_KEPT_VIOLATIONS: usize = 4000;
 const MAX_REPLAY_FILES: usize = 40;
 const MAX_KEPT_PER_KEY: u64 = 25;
 const MAX_SAMPLES: usize = 12;
+const OUTCOME_SHARDS: usize = 64;
+const MAX_OUTCOMES_PER_SHARD: usize = 40_000;
 
 impl Ctx {
     /// Parse `argv`: `[quick|thorough] [--replay FILE]`. Tier can also come
@@ -123,7 +125,7 @@ impl Ctx {
             states: AtomicU64::new(0),
             transitions: AtomicU64::new(0),
             nontrivial: AtomicU64::new(0),
-            outcomes: Mutex::new(BTreeSet::new()),
+            outcomes: (0..OUTCOME_SHARDS).map(|_| Mutex::new(BTreeSet::new())).collect(),
             samples: Mutex::new(Vec::new()),
             sample_counter: AtomicU64::new(0),
             violations: Mutex::new(Vec::new()),
@@ -131,7 +133,7 @@ impl Ctx {
             per_key: Mutex::new(BTreeMap::new()),
             extra: Mutex::new(Map::new()),
             assumptions: Mutex::new(Vec::new()),
-            stats: Mutex::new(BTreeMap::new()),
+            stats: std::sync::RwLock::new(BTreeMap::new()),
             caps_hit: Mutex::new(Vec::new()),
         }
     }
@@ -168,30 +170,31 @@ impl Ctx {
     /// reported, and a run with a single outcome is flagged as vacuous.
     pub fn outcome<H: std::hash::Hash>(&self, h: &H) {
         let v = fixed_hash(h);
-        let mut set = self.outcomes.lock().unwrap();
-        if set.len() < 2_000_000 {
+        let mut set = self.outcomes[(v % OUTCOME_SHARDS as u64) as usize].lock().unwrap();
+        if set.len() < MAX_OUTCOMES_PER_SHARD {
             set.insert(v);
         }
     }
-    pub fn outcome_set_merge(&self, local: &BTreeSet<u64>) {
-        let mut set = self.outcomes.lock().unwrap();
-        for v in local {
-            if set.len() >= 2_000_000 {
-                break;
-            }
-            set.insert(*v);
-        }
+    fn distinct_outcomes(&self) -> u64 {
+        self.outcomes.iter().map(|s| s.lock().unwrap().len() as u64).sum()
     }
     /// Named statistic counters (reported under coverage.stats).
     pub fn stat(&self, name: &str, n: u64) {
-        *self.stats.lock().unwrap().entry(name.to_string()).or_insert(0) += n;
+        if let Some(c) = self.stats.read().unwrap().get(name) {
+            c.fetch_add(n, Ordering::Relaxed);
+            return;
+        }
+        self.stats.write().unwrap().entry(name.to_string()).or_insert_with(|| AtomicU64::new(0)).fetch_add(n, Ordering::Relaxed);
     }
     pub fn stat_max(&self, name: &str, n: u64) {
-        let mut s = self.stats.lock().unwrap();
-        let e = s.entry(name.to_string()).or_insert(0);
-        if n > *e {
-            *e = n;
+        if let Some(c) = self.stats.read().unwrap().get(name) {
+            c.fetch_max(n, Ordering::Relaxed);
+            return;
         }
+        self.stats.write().unwrap().entry(name.to_string()).or_insert_with(|| AtomicU64::new(0)).fetch_max(n, Ordering::Relaxed);
+    }
+    fn stats_snapshot(&self) -> BTreeMap<String, u64> {
+        self.stats.read().unwrap().iter().map(|(k, v)| (k.clone(), v.load(Ordering::Relaxed))).collect()
     }
     /// Keep a few actual cases for the evidence file. Cheap to call often:
     /// `make` is only evaluated when the sample is kept.
@@ -260,7 +263,7 @@ impl Ctx {
         let transitions = self.transitions.load(Ordering::Relaxed);
         let evaluations = self.evaluations.load(Ordering::Relaxed);
         let nontrivial = self.nontrivial.load(Ordering::Relaxed);
-        let distinct_outcomes = self.outcomes.lock().unwrap().len() as u64;
+        let distinct_outcomes = self.distinct_outcomes();
         let samples = self.samples.lock().unwrap().clone();
         let replaying = self.replay.is_some();
 
@@ -310,7 +313,7 @@ impl Ctx {
         coverage.insert("exhaustive".into(), json!(exhaustive && self.caps_hit.lock().unwrap().is_empty()));
         coverage.insert("samples".into(), json!(samples));
         coverage.insert("caps_hit".into(), json!(*self.caps_hit.lock().unwrap()));
-        coverage.insert("stats".into(), json!(*self.stats.lock().unwrap()));
+        coverage.insert("stats".into(), json!(self.stats_snapshot()));
         coverage.insert(
             "known_findings_matched".into(),
             json!(matched.iter().map(|(i, n)| json!({"what": known[*i].what, "violations": n})).collect::<Vec<_>>()),
@@ -348,7 +351,7 @@ impl Ctx {
             self.id, self.tier, states, transitions, evaluations.max(transitions), nontrivial, distinct_outcomes,
             self.violation_total.load(Ordering::Relaxed), wall
         );
-        for (k, v) in self.stats.lock().unwrap().iter() {
+        for (k, v) in self.stats_snapshot().iter() {
             println!("  stat {k} = {v}");
         }
         for c in self.caps_hit.lock().unwrap().iter() {
